@@ -14,6 +14,7 @@ import (
 	"golang.org/x/net/http2"
 	"io"
 	"net"
+	"net/http"
 	"os"
 	"sort"
 	"strings"
@@ -181,6 +182,13 @@ func main() {
 	// every proxy is composed before any traffic flows: VerifNewApp rewrites package-level settings that
 	// request handlers read, and a handler that outlives its connection (client reset the stream and
 	// left) has no synchronisation edge to this goroutine - the race detector would blame /repo for it
+	silentGate := make(chan struct{})
+	be.PlanFor = func(r *http.Request, tag string) *rig.Plan {
+		if strings.HasPrefix(r.URL.Path, "/silent") {
+			return &rig.Plan{Status: 200, Gate: silentGate, Chunks: [][]byte{[]byte("late")}}
+		}
+		return nil
+	}
 	var envs []*env
 	for _, g := range grid {
 		envs = append(envs, newEnv(run, be, g[0], g[1], nil))
@@ -193,12 +201,17 @@ func main() {
 			e.aborts()
 			e.stallsThenClose()
 			e.leavesAfterActions()
+			e.errorsThenStay()
+			e.leavesWhileBackendSilent(silentGate)
 		}
 		e.settle("end of environment " + e.name)
 		e.px.Stop()
 	}
+	close(silentGate)
 	fe.e.base, _ = rig.Census(markers...)
 	faults(run, be, fe)
+	run.Require("scenarios_handshake_error_then_stay", 8)
+	run.Require("scenarios_leave_while_backend_silent", 6)
 	run.Require("scenarios_abort", 50)
 	run.Require("scenarios_fault", 50)
 	run.Require("timeouts_judged", 6)
